@@ -101,6 +101,10 @@ class Axis:
         for pos in self.coords:
             # use user-specified value if present
             if pos in default_shifts:
+                if default_shifts[pos] not in VALID_POSITION_NAMES.split("|"):
+                    raise ValueError(
+                        f"Default shift must be to one of {VALID_POSITION_NAMES.split('|')}, but got {default_shifts[pos]!r}"
+                    )
                 self._default_shifts[pos] = default_shifts[pos]
             else:
                 for possible_shift in FALLBACK_SHIFTS[pos]:
